@@ -364,7 +364,9 @@ class UnifiedRTFEncoder(EncodingStrategy):
                     parts.append(source_content)
 
             if not is_last:
-                parts.append(r"\page ")
+                # Same page break block as table documents: it restates the
+                # paper size and margins for the next page.
+                parts.append(self.document_service.generate_page_break(document))
 
         parts.append("\n\n}")
         return "".join([p for p in parts if p])
